@@ -60,6 +60,14 @@ def configs(tier, seed):
                             extra["wvals"] = [["1/2", "3", "1"], ["3", "3", "1/2"], ["1", "0", "2"]][i % 3][:n_]
                         out.append(C03._base(n_, dims, 2, [0] * len(dims), "sum", weights=wf, ignore=ignore, fmt=fmt, K=K,
                                              fact=fact, stat=stat, force2d=(K == 1 and stat == "stddev" and i % 4 == 0), **extra))
+    # integer weights (frequencies) in int64 arrays, plain and with a validity array
+    for stat, K in (("covariance", 2), ("stddev", 1)):
+        for wf in ("array", "pair"):
+            i += 1
+            if tier == "quick" and stat == "stddev" and wf == "array":
+                continue
+            out.append(C03._base(N, [[]], 2, [0], "sum", weights=wf, ignore=bool(i % 2), fmt="nan", K=K, fact="nan", stat=stat,
+                                 wvals=["1", "3", "2"], wdtype="int64"))
     # quantile of a several-column fact (each column has its own missing rows)
     for ignore in (False, True):
         for wf in (("none",) if tier == "quick" else ("none", "array")):
@@ -112,8 +120,14 @@ def concrete_structure_inputs(data, cats, fvalid, wvalid):
     else:
         fact = (arr([SReal(data.vt[r][k], False, False, True) for r in range(N) for k in range(K)], rnp.int64, shape),
                 arr([bool(fvalid[r][k]) for r in range(N) for k in range(K)], bool, shape))
+    wint = data.cfg.get("wdtype") == "int64"        # integer weights (frequencies): concrete whole numbers, int64 arrays
     if data.wform == "none":
         weights = None
+    elif wint and data.wform == "array":
+        weights = arr([int(Fraction(data.cfg["wvals"][r])) for r in range(N)], rnp.int64, (N,))
+    elif wint and data.wform == "pair":
+        weights = (arr([int(Fraction(data.cfg["wvals"][r])) for r in range(N)], rnp.int64, (N,)),
+                   arr([bool(wvalid[r]) for r in range(N)], bool, (N,)))
     elif data.wform == "array":
         weights = arr([SReal(data.wt[r], False, False) if wvalid[r] else float("nan") for r in range(N)], fl, (N,))
     elif data.wform == "pair":
@@ -174,6 +188,8 @@ def explore(cfg, eng, ctx):
             for sub, cs in per.items():
                 cats[d] = [eng.concretize(c) for c in cs]
         fvalid = [[eng.branch(data.vvalid[r][k]) for k in range(K)] for r in range(N)]
+        if data.wform == "array" and cfg.get("wdtype") == "int64":
+            eng.assume(*data.wvalid)          # an integer array cannot mark a weight missing
         if data.wform in ("array", "pair"):
             wvalid = [eng.branch(b) for b in data.wvalid]
             # weights strictly positive here (zero weights are the known-finding region F19 for the weighted quantile)
